@@ -850,7 +850,7 @@ def c05(case: dict, cv: CallView, out: list) -> dict:
     f = cv.final
     d = deferred_delay(cv)
     ns = f.get("next_sleep_s") if f["via"] in ("outcome", "raise") else None
-    if d is not None and ns is not None and not _same_float(ns, d):
+    if d is not None and not _same_float(ns, d) and (ns is not None or ("next_sleep_s" in f and reported_reason(cv) == "SCHEDULED")):
         out.append(("C05:next_sleep_s", f"next_sleep_s={ns!r} but the deferred delay was {d!r}"))
     tl = f.get("timeline") if f["via"] == "outcome" else None
     if tl is not None:
